@@ -6,7 +6,7 @@ set_option linter.unusedSimpArgs false
 namespace GenApply
 open Tak GenMove
 
-theorem apply_slide (basis : Array W) (hB : 64 ≤ basis.size) (p : Pos) (m : Move) (nn : Bool)
+theorem apply_slide (basis : Array W) (p : Pos) (hB : p.cfg.size * p.cfg.size ≤ basis.size) (m : Move) (nn : Bool)
     (hsz : p.cfg.size ≤ 8) (hH : p.cfg.size * p.cfg.size ≤ p.height.size) (hS : p.cfg.size * p.cfg.size ≤ p.stacks.size)
     (dx dy : Int)
     (hk : (m.type = 5 ∧ dx = -1 ∧ dy = 0) ∨ (m.type = 6 ∧ dx = 1 ∧ dy = 0) ∨ (m.type = 7 ∧ dx = 0 ∧ dy = 1) ∨
@@ -49,9 +49,7 @@ theorem apply_slide (basis : Array W) (hB : 64 ≤ basis.size) (p : Pos) (m : Mo
     generalize (m.x + m.y * (p.cfg.size : Int)).toNat = j at hjlt hj2 ⊢
     have hjH : j < p.height.size := by omega
     have hjS : j < p.stacks.size := by omega
-    have hjB : j < basis.size := by
-      have : p.cfg.size * p.cfg.size ≤ 8 * 8 := Nat.mul_le_mul hsz hsz
-      omega
+    have hjB : j < basis.size := by omega
     have htop := C01.top_is_source p m.x m.y j (by omega) hj2
     unfold slideFrom
     simp only [Gen.slidesIterator, Slides.elems]
@@ -112,7 +110,7 @@ theorem apply_slide (basis : Array W) (hB : 64 ≤ basis.size) (p : Pos) (m : Mo
     have inv0 : Inv basis p st0 := by
       rw [hst0]
       exact ⟨hb'.1, hb'.2.1, hb'.2.2.1, hb'.2.2.2, by rw [hlf.2.1]; exact hH, by rw [hlf.2.2]; exact hS⟩
-    have hloop := loop1_eq basis hB p hsz top stack _ _ hdx hdy 8 m.slides (shift32 _) st0 inv0 j
+    have hloop := loop1_eq basis p hB hsz top stack _ _ hdx hdy 8 m.slides (shift32 _) st0 inv0 j
     cases hsl : slideLoop basis p top stack _ _ (slideElems 8 m.slides) st0 with
     | error e =>
       obtain ⟨w, rfl⟩ := slideLoop_illegal basis p top stack _ _ _ st0 e hsl
@@ -121,7 +119,7 @@ theorem apply_slide (basis : Array W) (hB : 64 ≤ basis.size) (p : Pos) (m : Mo
     | ok st' =>
       obtain ⟨i', it', h⟩ := hloop.2 st' hsl
       rw [h]
-      have fr : Frame { p with move := p.move + 1 } st'.next := by
+      have fr : Untouched { p with move := p.move + 1 } st'.next := by
         have := slideLoop_frame basis p top stack _ _ _ st0 st' hsl
         rw [hst0] at this
         exact hlf.1.trans this
